@@ -274,6 +274,21 @@ func (e *Engine) renderSpec(name, mode string) (rs *renderedSpec, err error) {
 	if ret == SReal && body.Sort == SInt {
 		body = ToReal(body)
 	}
+	// specialised copies are created while the body is evaluated: take them from the rendered text
+	{
+		have := map[string]bool{}
+		for _, d := range rs.deps {
+			have[d] = true
+		}
+		for _, tok := range strings.FieldsFunc(body.S, func(r rune) bool { return r == '(' || r == ')' || r == ' ' }) {
+			tok = strings.TrimSuffix(tok, "_u")
+			if _, ok := e.specs.Funcs[tok]; ok && !have[tok] && tok != name {
+				have[tok] = true
+				rs.deps = append(rs.deps, tok)
+			}
+		}
+		sort.Strings(rs.deps)
+	}
 	if rs.rec {
 		rs.decl = fmt.Sprintf("(declare-fun %s (Fuel %s) %s)\n", smtName, strings.Join(sorts, " "), ret)
 		hi := App(ret, smtName, append([]Term{{"(FS p!ly)", "Fuel"}}, vars...)...)
